@@ -210,6 +210,8 @@ def run(F, ck, tier):
                         d_ = _poly.add(d_, _poly.const(1), -1)
                     lens_ = [m for m in d_ if any(x.startswith('len(@') for x in m)]
                     want_ok = len(lens_) == 1 and len(lens_[0]) == 1 and d_.get(lens_[0]) == 8 and d_.get(('HASH_SIZE',)) == -1 and d_.get((), 0) == -1 and len(d_) == 3
+                    # the same predicate spelled with a floor division: len <= HASH_SIZE / 8
+                    want_ok = want_ok or (len(lens_) == 1 and len(lens_[0]) == 1 and d_.get(lens_[0]) == 1 and d_.get(('(HASH_SIZE)/(8)',)) == -1 and d_.get((), 0) == -1 and len(d_) == 3)
                     ck.ob('R12.4', 'noop.threshold.exact', want_ok, 'verbatim copy exactly when 8 * len(inputs) <= HASH_SIZE' if want_ok else
                           'Hasher::hash_or_noop copies the leaf verbatim when %s < 0, not when 8 * len(inputs) - HASH_SIZE <= 0: for a hasher whose digest is not a multiple of 8 bytes the last element of such a leaf is truncated, so different leaves share a digest' % _poly.show(d_), '%s:%d' % (hn[0].file, hn[0].line))
                 except _poly.Unknown as ex_:
